@@ -70,6 +70,7 @@ type epochState struct {
 	proposalsSent                                       int // proposals the strategy put on this round's channel
 
 	prevoteAnswers, decideAnswers []string // strategy answers given to calls of this round, in order
+	unreadPrevote, unreadDecide   bool     // a result was produced after the machine left the round (stays in the channel)
 }
 
 func newEpoch(h uint64, r uint32) *epochState {
